@@ -31,10 +31,15 @@ namespace fastscapelib
         for (std::size_t i = 0; i < m_size; ++i)
             m_pause_jobs[i] = [this, i]()
             {
+                FASTSCAPELIB_VERIF_UNLOCK_GUARD(verif_unlock_guard_, s_cv_mutex, this);
+                FASTSCAPELIB_VERIF_SYNC(k_mutex_lock, s_cv_mutex, this, i);
                 std::unique_lock<std::mutex> lk(m_cv_m);
                 ++m_paused_count;
+                FASTSCAPELIB_VERIF_SYNC(k_rmw_done, s_paused_count, this, i);
+                FASTSCAPELIB_VERIF_CV_WAIT(s_cv, this, lk)
                 m_cv.wait(lk);
                 --m_paused_count;
+                FASTSCAPELIB_VERIF_SYNC(k_rmw_done, s_paused_count, this, i);
             };
     }
 
@@ -60,7 +65,10 @@ namespace fastscapelib
 
         for (std::size_t i = 0; i < m_size; ++i)
             if ((*p_jobs)[i] != nullptr)
+            {
+                FASTSCAPELIB_VERIF_SYNC(k_store, s_has_job, this, i);
                 m_has_job[i].store(1, std::memory_order_relaxed);
+            }
     }
 
     /////////////////////////////////////////////////////////////////////////////////////////
@@ -77,6 +85,7 @@ namespace fastscapelib
 
             while (m_paused_count != m_size)
             {
+                FASTSCAPELIB_VERIF_SYNC(k_poll, s_pause_spin, this, 0);
             }
         }
     }
@@ -88,6 +97,7 @@ namespace fastscapelib
     {
         if (m_paused)
         {
+            FASTSCAPELIB_VERIF_SYNC(k_cv_notify_all, s_cv, this, 0);
             m_cv.notify_all();
             m_paused = false;
             wait();
@@ -109,6 +119,7 @@ namespace fastscapelib
     {
         for (std::size_t i = 0; i < m_size; ++i)
         {
+            FASTSCAPELIB_VERIF_SYNC(k_load, s_has_job, this, i);
             if (m_has_job[i].load(std::memory_order_relaxed))
                 return false;
         }
@@ -122,6 +133,7 @@ namespace fastscapelib
     {
         while (!was_empty())
         {
+            FASTSCAPELIB_VERIF_SYNC(k_poll, s_wait, this, 0);
         }
     }
 
@@ -132,13 +144,18 @@ namespace fastscapelib
     {
         if (!m_stopped)
         {
+            FASTSCAPELIB_VERIF_SYNC(k_store, s_stopped, this, 0);
             m_stopped = true;
 
             if (m_paused)
                 resume();
 
             for (std::thread& worker : m_workers)
+            {
+                FASTSCAPELIB_VERIF_SYNC(
+                    k_join, s_worker, this, static_cast<std::size_t>(&worker - m_workers.data()));
                 worker.join();
+            }
         }
     }
 
@@ -172,15 +189,23 @@ namespace fastscapelib
                 m_workers.emplace_back(
                     [this, i]
                     {
+                        FASTSCAPELIB_VERIF_SYNC(k_thread_begin, s_worker, this, i);
                         while (!m_stopped.load(std::memory_order_relaxed))
                         {
+                            FASTSCAPELIB_VERIF_SYNC(k_poll, s_worker_loop, this, i);
                             if (m_has_job[i].load(std::memory_order_relaxed))
                             {
+                                FASTSCAPELIB_VERIF_SYNC(k_job_begin, s_job, this, i);
                                 (*p_jobs)[i]();
+                                FASTSCAPELIB_VERIF_SYNC(k_job_end, s_job, this, i);
+                                FASTSCAPELIB_VERIF_SYNC(k_store, s_has_job, this, i);
                                 m_has_job[i].store(0, std::memory_order_relaxed);
                             }
+                            FASTSCAPELIB_VERIF_SYNC(k_load, s_stopped, this, i);
                         }
+                        FASTSCAPELIB_VERIF_SYNC(k_thread_end, s_worker, this, i);
                     });
+                FASTSCAPELIB_VERIF_SYNC(k_spawned, s_worker, this, i);
             }
         }
     }
@@ -200,6 +225,7 @@ namespace fastscapelib
     {
         if (size != m_size)
         {
+            FASTSCAPELIB_VERIF_SYNC(k_point, s_resize, this, size);
             m_size = size;
             stop();
             m_stopped = false;
